@@ -15,6 +15,9 @@ RULE = ('every value -> text -> value for ALL 8-bit and ALL 16-bit values (both 
         'frames; malformed texts from a grammar (white space, + and - signs, leading zeros, overflow by '
         'one, 17-30 digits, trailing junk, embedded NUL, missing/extra separators, wrong field widths) '
         'for every parser; the libc/libuuid models are run against the real functions on the same texts; '
+        'IPv6: all groups >= 0x1000 (39 characters), all-ones, a single zero group / every zero run at every position, '
+        'competing runs, ::, ::1, v4-mapped/-compatible forms and neighbours, random, through ToString -> FromString '
+        'and operator<<, plus malformed IPv6 texts; every case runs under an exception guard (exc=1 = a conversion threw); '
         'CONTRACT printers are pure functions of the value: (1) operator<< of every value type (UID, IPv4, IPv6, '
         'socket address, MAC, CID, DmxBuffer) on a caller stream that already carries state (left/right/internal, '
         'hex, fill, pending setw) must insert exactly the ToString() text as one string field and leave the '
@@ -34,7 +37,8 @@ TRUSTED = ['modelled rather than verified: StringUtils.cpp StringSplit/StringTri
            'libc strtoull/strtoll/atoi and ostream integer formatting are ordinary Coq definitions (Libc.v) '
            'validated against the platform on every run; inet_pton/inet_ntop/uuid_parse/uuid_unparse enter the '
            'IPv4 / socket address / CID theorems as Section variables with named hypotheses',
-           'IPv6 text is entirely inet_pton/inet_ntop: only checked that the OLA wrapper adds nothing (harness key wrap)']
+           'IPv6 text: inet_ntop/inet_pton(AF_INET6) are ordinary Coq definitions (Ipv6.v, glibc 2.36 inet_ntop6/inet_pton6), '
+           'validated against the platform on boundary-biased addresses and malformed texts on every run (keys lt6, lraw)']
 
 LEVEL_TEXT = ('Coq theorems over an executable model of OLA\'s text conversions, for all texts and all values: '
               'StringToInt (8 overloads, strict and lenient) and HexStringToInt (8 overloads) accept exactly the '
@@ -44,7 +48,8 @@ LEVEL_TEXT = ('Coq theorems over an executable model of OLA\'s text conversions,
               'wrong field counts are rejected; StringToBool is characterised exactly. Partial: '
               'DmxBuffer::SetFromString truncates out-of-range items (atoi + uint8_t) - proved only for items in '
               '0..255 (c20_dmx_text_partial) with the violation recorded as c20_dmx_text_refuted / known finding; '
-              'IPv4/IPv6/CID text itself is libc/libuuid behaviour taken as hypothesis. The model is tied to the '
+              'IPv4/CID text itself is libc/libuuid behaviour taken as hypothesis; IPv6 text is modelled (glibc inet_ntop6/'
+              'inet_pton6) and proved to round-trip for every 128-bit address with length <= 39. The model is tied to the '
               'C++ by a differential correspondence check on an ASan/UBSan build of the working tree.')
 LEVEL_NOTE = ('Trusted: Coq kernel, extraction (ExtrOcamlBasic), OCaml/C++ glue, the generator\'s coverage of the '
               'correspondence (model = code is tested, not proved), the Libc.v models of strtoull/strtoll/atoi/'
